@@ -118,7 +118,7 @@ contract(
 )
 contract(
     "ethosu.vela.fp_math:saturating_rounding_multiply_by_pot", props=["C19"],
-    variants={"%s,e=%d" % (k, e): dict(x=t, exponent=TConst(e)) for k, t in INT_TYPES.items() for e in range(0, 31)},
+    variants={"%s,e=%d" % (k, e): dict(x=t, exponent=TConst(e)) for k, t in dict(INT_TYPES, **{"np.int32": I32}).items() for e in range(0, 31)},
     requires=["I32_MIN <= x <= I32_MAX", "0 <= exponent <= 30"],
     ensures=["int(result) == sat32(x * 2**exponent)"],
     returns=PyInt,
